@@ -494,7 +494,10 @@ def run(rep: Report, prog: Program, tier: str) -> None:
                 name = res[1] if isinstance(res, tuple) and res[0] == "pure" else (e.lib() or "")
                 for fr in e.frames:
                     helpers.add(fr[0].func.qual)
-                if name in (".search", ".match", ".findall", ".fullmatch", ".finditer") and e.recv is not None:
+                if name in (".search", ".match", ".findall", ".fullmatch", ".finditer") and e.recv is not None and e.recv in (("global", "re"), ("global", "re.re")) and e.args:
+                    a0 = e.args[0]  # `re.search(r"...", arg)`: the module function, pattern first
+                    pats_set.add((name[1:], a0[1] if a0[0] == "const" and isinstance(a0[1], str) else (pattern_text(a0, cf.module) or f"<{show(a0)}>")))
+                elif name in (".search", ".match", ".findall", ".fullmatch", ".finditer") and e.recv is not None:
                     pats_set.add((name[1:], pattern_text(e.recv, cf.module) or f"<{show(e.recv)}>"))
                 elif name in ("re.search", "re.match", "re.findall", "re.fullmatch") and e.args:
                     a0 = e.args[0]
